@@ -127,6 +127,13 @@ def run(tier, replay=None):
                     m[i] = v
                     recs.append({"type": d["type"], "hex": bytes(m).hex()})
                     expect.append(None)
+        # Wire!PrefixesRejected carried over to the large formats: every prefix of 0 .. 64 bytes (the empty string included)
+        # and the prefixes ending at every 32nd part of the encoding must decode to an error or a value, never panic
+        b0 = bytes.fromhex(d["hex"])
+        cuts = sorted(set(list(range(0, min(65, len(b0)))) + [len(b0) * k // 32 for k in range(1, 32)] + [max(0, len(b0) - k) for k in (1, 2, 3, 4, 8)]))
+        for c in cuts:
+            recs.append({"type": d["type"], "hex": b0[:c].hex()})
+            expect.append(None)
         for h in mutations(rng, d["hex"], nmut if not d.get("big") else max(40, nmut // 6)):
             recs.append({"type": d["type"], "hex": h})
             expect.append(None)
